@@ -91,11 +91,14 @@ def _is_node_class(e: ast.AST, module_alias: str) -> bool:
 
 def _tuples_of(fn: ast.FunctionDef, scope: Scope, kinds: Sequence[str], module_alias: str, what: str) -> List[List[str]]:
     found: List[List[str]] = []
+    dispatch_like: List[List[str]] = []
     for node in ast.walk(fn):
         if not (isinstance(node, ast.Call) and isinstance(node.func, ast.Name) and node.func.id == "isinstance" and len(node.args) == 2):
             continue
-        if isinstance(node.args[0], ast.Name) and node.args[0].id == "node":
-            continue  # a dispatch on the node itself (`isinstance(node, (parse_tree.Any, parse_tree.All))`), not on an operand
+        # an inline tuple tested on the node itself (`isinstance(node, (parse_tree.Any, parse_tree.All))`) looks like a
+        # dispatch, not like a test of an operand: it only counts when the function has no other tuple
+        target = dispatch_like if isinstance(node.args[0], ast.Name) and node.args[0].id == "node" \
+            and isinstance(node.args[1], ast.Tuple) else found
         try:
             elts = _resolve(node.args[1], fn, scope, module_alias)
         except _Unresolved as e:
@@ -107,8 +110,8 @@ def _tuples_of(fn: ast.FunctionDef, scope: Scope, kinds: Sequence[str], module_a
             if not (_is_node_class(e, module_alias) and e.attr in kinds):  # type: ignore[attr-defined]
                 raise ExtractError(f"{what}: unexpected element {ast.dump(e)} in the no-parentheses tuple")
             names.append(e.attr)  # type: ignore[attr-defined]
-        found.append(names)
-    return found
+        target.append(names)
+    return found if found else dispatch_like
 
 
 def _callees(fn: ast.FunctionDef, scope: Scope) -> List[ast.FunctionDef]:
